@@ -53,13 +53,22 @@ type opSpec struct {
 }
 
 // specFor renders a batch of structures as one document (operation i = GET /o<i>).
+// convenient, when set, gives every operation of the documents rendered next a common
+// `default` error response, so that the generator emits its "convenient errors" code paths
+// (security and decoding failures answered through Handler.NewError).
+var convenient bool
+
 func specFor(ops []opSpec, n int, notImpl map[int]bool, global [][]int) []byte {
 	var b strings.Builder
 	b.WriteString("openapi: 3.0.3\ninfo: {title: t, version: \"1\"}\n")
 	if global != nil {
 		b.WriteString("security:" + reqYAML(global, "  ") + "\n")
 	}
-	b.WriteString("components:\n  securitySchemes:\n")
+	b.WriteString("components:\n")
+	if convenient {
+		b.WriteString("  schemas:\n    Error:\n      type: object\n      required: [code, message]\n      properties:\n        code: {type: integer}\n        message: {type: string}\n")
+	}
+	b.WriteString("  securitySchemes:\n")
 	for s := 0; s < n; s++ {
 		if notImpl[s] {
 			fmt.Fprintf(&b, "    %s: {type: openIdConnect, openIdConnectUrl: \"https://x/.well-known\"}\n", schemeName(s))
@@ -78,6 +87,9 @@ func specFor(ops []opSpec, n int, notImpl map[int]bool, global [][]int) []byte {
 			b.WriteString("      security:" + reqYAML(op.st.Reqs, "        ") + "\n")
 		}
 		b.WriteString("      responses:\n        \"200\": {description: ok}\n")
+		if convenient {
+			b.WriteString("        default: {description: error, content: {application/json: {schema: {$ref: \"#/components/schemas/Error\"}}}}\n")
+		}
 	}
 	return []byte(b.String())
 }
@@ -106,7 +118,13 @@ func glue(mod *gencode.Module, pkg string) (string, error) {
 		return "", err
 	}
 	var b strings.Builder
-	fmt.Fprintf(&b, "package main\n\nimport (\n\t\"context\"\n\t\"net/http\"\n\n\t\"github.com/ogen-go/ogen/middleware\"\n\n\tapi \"vmod/%s\"\n)\n\nvar _ context.Context\n\n", pkg)
+	fmt.Fprintf(&b, "package main\n\nimport (\n\t\"context\"\n\t\"net/http\"\n\n\t\"github.com/ogen-go/ogen/middleware\"\n\t\"github.com/ogen-go/ogen/ogenerrors\"\n\n\tapi \"vmod/%s\"\n)\n\nvar _ context.Context\nvar _ = ogenerrors.ErrorCode\n\n", pkg)
+	fmt.Fprintf(&b, "type h_%s struct{ api.UnimplementedHandler }\n\n", pkg)
+	if sf.NewErrorType != "" {
+		// convenient errors: the status of a refusal is the one ogenerrors assigns to the error
+		typ := strings.TrimPrefix(sf.NewErrorType, "*")
+		fmt.Fprintf(&b, "func (h_%s) NewError(ctx context.Context, err error) %s {\n\tr := &%s{}\n\tr.StatusCode = ogenerrors.ErrorCode(err)\n\treturn r\n}\n\n", pkg, sf.NewErrorType, typ)
+	}
 	fmt.Fprintf(&b, "type sec_%s struct{}\n\n", pkg)
 	for _, m := range sf.SecMethods {
 		var n int
@@ -117,9 +135,9 @@ func glue(mod *gencode.Module, pkg string) (string, error) {
 	}
 	fmt.Fprintf(&b, "func init() {\n\tregister(%q, func(mw middleware.Middleware) (http.Handler, error) {\n", pkg)
 	if sf.HasSecurity {
-		fmt.Fprintf(&b, "\t\treturn api.NewServer(api.UnimplementedHandler{}, sec_%s{}, api.WithMiddleware(mw))\n", pkg)
+		fmt.Fprintf(&b, "\t\treturn api.NewServer(h_%[1]s{}, sec_%[1]s{}, api.WithMiddleware(mw))\n", pkg)
 	} else {
-		b.WriteString("\t\treturn api.NewServer(api.UnimplementedHandler{}, api.WithMiddleware(mw))\n")
+		fmt.Fprintf(&b, "\t\treturn api.NewServer(h_%s{}, api.WithMiddleware(mw))\n", pkg)
 	}
 	b.WriteString("\t})\n}\n")
 	return b.String(), nil
@@ -409,8 +427,16 @@ func Check(r *core.Run) error {
 	}
 	var reqs []reqT
 	opOf := map[string][]opSpec{}
+	nGen, nConvenient := 0, 0
 	genOne := func(p pkgT, global [][]int) error {
+		// every second package is generated with a common default error response
+		nGen++
+		convenient = nGen%2 == 0
+		if convenient {
+			nConvenient++
+		}
 		g, err := mod.Generate(p.name, specFor(p.ops, p.n, nil, global), gencode.ServerOnly())
+		convenient = false
 		if err != nil {
 			return fmt.Errorf("generate %s: %w", p.name, err)
 		}
@@ -637,6 +663,7 @@ func Check(r *core.Run) error {
 	r.AddEvals(int64(len(obsLines)))
 	r.AddTraces(int64(len(reqs)))
 	r.Cov("requests", len(reqs))
+	r.Cov("packages_with_convenient_errors", fmt.Sprintf("%d of %d", nConvenient, nGen))
 	r.Cov("client_credentials", len(cli))
 	vs, err := obs.Check(r, obsLines, obs.CheckOpts{Module: "SecurityCheck", Cfg: obs.StdCfg("KnownDeviations = " + known), ChunkSize: 6000})
 	if err != nil {
